@@ -729,6 +729,10 @@ def r_reject(ctx) -> RuleResult:
                 notes.append(f"{short(leaf, 25)}: {','.join(sorted(tags(lt))) or '-'}")
         g.discard("const")
         detail = "; ".join(dict.fromkeys(notes))[:200]
+        if "?" in g and g & {"val", "elem", "fml"}:
+            # a leaf whose origin the typing lost (it carries every tag): that it may come from a value is the analysis's
+            # doing, not the code's
+            return "UNKNOWN", detail
         if g & {"val", "elem", "fml"} and not (dupkey and not (g & {"elem", "fml"}) and _only_membership(tests)):
             if "idx" in g and not (g & {"val", "elem"}) and g <= {"idx", "cnt", "fml"}:
                 return "INDEX", detail
